@@ -1024,6 +1024,10 @@ class CEmitter(NatEmitter):
                 lo = self.emit(recv[1], env, hi[1])
             if lo[1] != hi[1] or lo[1] not in INT_TYPES:
                 raise Unsupported("range bounds")
+            if recv[1][0] == "lit" and recv[2][0] == "lit" and not recv[1][2] and not recv[2][2] and recv[2][1] >= 2 ** 15:
+                # both bounds unsuffixed: rustc may fall back to i32; the values are the same in every integer type only
+                # when they are small
+                raise Unsupported("range of unsuffixed literals that is not small")
             a = f"((List.range ({hi[0]} - {lo[0]})).map (· + {lo[0]}))" if lo[0] != "0" else f"(List.range {paren(hi[0])})"
             aty, aok = ("iter", lo[1]), self.conj(lo[2], hi[2])
         else:
@@ -1063,6 +1067,8 @@ class CEmitter(NatEmitter):
             if name == "clone" and not args:
                 return a, aty, aok
         if aty == "biguint":
+            if name == "bits" and not args:
+                return f"(TF.bitLen {paren(a)})", "u64", aok
             if name == "clone" and not args:
                 return a, aty, aok
             if name == "is_zero" and not args:
@@ -1879,6 +1885,47 @@ def conv_specs(read_src):
     ]
 
 
+def codec_specs(read_src, status):
+    """the macro-generated and hand-written leaf impls of `BFieldCodec` and the `From` impls they go through"""
+    bfe, cod = read_src(BFE_REL), read_src(COD_REL)
+    B = "BFieldElement"
+    specs = []
+
+    def expand(src, name):
+        try:
+            return expand_macro(src, name)
+        except Unsupported as ex:
+            status["failed"][f"macro {name}"] = "conv: " + str(ex)
+            return []
+    # From<&BFieldElement> for u64 / u128 (macro impl_into_for_int), From<uN> for BFieldElement
+    for (t,), text in expand(bfe or "", "impl_into_for_int"):
+        if t in ("u64", "u128"):
+            specs.append(dict(lname=f"codec_{t}_from_bfe", rel=BFE_REL, src=text, fn="from",
+                              anchor=r"impl From<&BFieldElement> for " + t, owner=None, self_ty=t,
+                              reg=("conv", "from", "bfe", t)))
+    for (t,), text in expand(bfe or "", "impl_from_for_small_unsigned_int"):
+        specs.append(dict(lname=f"codec_bfe_from_{t}", rel=BFE_REL, src=text, fn="from",
+                          anchor=r"impl From<" + t + r"> for BFieldElement", owner=B, self_ty="bfe",
+                          reg=("conv", "from", t, "bfe")))
+    specs.append(dict(lname="codec_bfe_from_u128", rel=BFE_REL, src=bfe, fn="from", anchor=r"impl From<u128> for BFieldElement",
+                      owner=B, self_ty="bfe", reg=("conv", "from", "u128", "bfe")))
+
+    def leaf(t, text):
+        a = r"impl BFieldCodec for " + t + r" \{"
+        return [dict(lname=f"codec_{t}_{f}", rel=COD_REL, src=text, fn=f, anchor=a, owner=t, self_ty=t,
+                     reg=("fun", "codec:" + t, f)) for f in ("decode", "encode", "static_length")]
+    for (t, n), text in expand(cod or "", "impl_bfield_codec_for_big_primitive_uint"):
+        specs += leaf(t, text)
+    for (t,), text in expand(cod or "", "impl_bfield_codec_for_small_primitive_uint"):
+        specs += leaf(t, text)
+    specs += leaf("bool", cod)
+    for sp in leaf("BFieldElement", cod):
+        sp["lname"] = sp["lname"].replace("BFieldElement", "bfe")
+        sp["self_ty"] = "bfe"
+        specs.append(sp)
+    return specs
+
+
 # attempted on every run so that the report says why they are outside the subset (never listed as `translated`)
 CONV_OUTSIDE = [
     ("conv_bfe_from_str", BFE_REL, "from_str", r"impl FromStr for BFieldElement", "BFieldElement", "bfe"),
@@ -1911,4 +1958,8 @@ def run(status, changed, fns, read_src):
     emit_file(changed, "ConvLoops", ", ".join((BFE_REL, DIG_REL, XFE_REL)),
               ["TF.Gen.Consts", "TF.Gen.BField", "TF.Model.RustStdConv"], texts)
     run_outside(status, read_src, CONV_OUTSIDE)
+    texts = []
+    for spec in codec_specs(read_src, status):
+        translate_one(spec, status, texts)
+    emit_file(changed, "CodecLeaves", ", ".join((COD_REL, BFE_REL)), ["TF.Gen.ConvLoops"], texts)
 # END BT5
